@@ -1,5 +1,6 @@
 import SpgProofs.Properties.C04
 import SpgProofs.Properties.C04b
+import SpgProofs.Properties.C04c
 #print axioms Spg.C04.body_eq_choices
 #print axioms Spg.C04.generate_factors
 #print axioms Spg.C04.capChoice_eq_one
@@ -24,3 +25,5 @@ import SpgProofs.Properties.C04b
 #print axioms Spg.C04.posChoice_sep
 #print axioms Spg.C04.sep_marginal
 #print axioms Spg.C04.word_pair_independent
+#print axioms Spg.C04.sep_pair_independent
+#print axioms Spg.C04.word_sep_independent
